@@ -15,10 +15,10 @@ Rej(r, what, detail) == PrintT("REJECT " \o ToJson(<<"C19", r.id \o "#" \o ToStr
 CallIds(r, dir) == LET c == SelectSeq(r.calls, LAMBDA x : x.dir = dir) IN [j \in 1..Len(c) |-> c[j].h]
 
 \* type of the single outbound message a step produces ("" = none)
-\* (the peer's Logout is answered by a Logout; its second Logon by a Logon on the accepting side only - the role is not part of
+\* (Session.Stop sends a Logout through the same path as any other message of the session; the peer's Logout is answered by a Logout; its second Logon by a Logon on the accepting side only - the role is not part of
 \*  the records, so for that step a message is expected exactly when one was offered to the handlers or transmitted)
 OutTypeOf(r) == LET a == r.a IN
-                IF a.a = "send" THEN "V" ELSE IF a.a = "recv" /\ a.ty = "1" THEN "0" ELSE IF a.a = "recv" /\ a.ty = "5" THEN "5"
+                IF a.a = "send" THEN "V" ELSE IF a.a = "stop" THEN "5" ELSE IF a.a = "recv" /\ a.ty = "1" THEN "0" ELSE IF a.a = "recv" /\ a.ty = "5" THEN "5"
                 ELSE IF a.a = "recv" /\ a.ty = "A" /\ (r.wire # <<>> \/ \E j \in 1..Len(r.calls) : r.calls[j].dir = "out") THEN "A" ELSE ""
 
 \* a served ResendRequest: the stored messages pass the outgoing handlers again (no new numbers): every message on
